@@ -223,7 +223,7 @@ def run(ck):
     if cost_thms:
         bad.update(vlib.step_lean(ck, "RlModel.Thm.C17Cost", cost_thms + ["Cost.discounted_cost_negative"]))
     if rows_thms:
-        bad.update(vlib.step_lean(ck, "RlModel.Thm.C17Rows", rows_thms + ["Rows.not_of_unclamped_in_negative", "Rows.limit_minus_offset_negative"]))
+        bad.update(vlib.step_lean(ck, "RlModel.Thm.C17Rows", rows_thms + ["Rows.est_inv", "Rows.merge_min_inv", "Rows.not_of_unclamped_in_negative", "Rows.limit_minus_offset_negative"]))
     for name, st in bad.items():
         ck.report("thm:" + name, "theorem %s no longer checks: %s" % (name, st.get("detail", st["status"])), replay={"theorem": name, "status": st}, found_input=False)
 
